@@ -9,13 +9,13 @@ MAP = {"RK4Iterator evaluates": "C06", "TemperatureParameters constructor": "C13
        "diffusion setup shifts": "C04", "cuboidal shape factors are continuous": "C15", "trained surrogate diffusivity getters": "C20", "interfacial-composition training grid": "C20",
        "bookkeeping follows a re-mesh": "C13", "nucleation rate is reset": "C14", "betaBinary2 receives": "C14", "grain-boundary nucleation barrier stays": "C14",
        "Orowan strength contribution": "C18", "rebuilt from its JSON": "C20", "moduliToC accepts": "C16", "setup provides a zero growth rate": "C03",
-       "binary lookup table when no size class is stable": "C03", "PSD recording works with a fixed": "C03", "keeps the PSD backup": "C08", "RK4Iterator no longer accumulates": "C06", "setBC without an element": "C04", "below the smallest size class": "C07", "already met at the start of the step": "C19", "gets the disordered matrix phase only once": "C10", "profile on which nothing changes": "C04", "fewer classes than minBins/2": "C08", "survive a change of the size classes": "C03", "newly added size classes continues": "C03", "stay aligned with the steps while a phase is reset": "C03", "before any interfacial composition exists": "C03", "without recording can be loaded": "C20", "post-processing works on copies": "C17",
+       "binary lookup table when no size class is stable": "C03", "PSD recording works with a fixed": "C03", "keeps the PSD backup": "C08", "RK4Iterator no longer accumulates": "C06", "setBC without an element": "C04", "below the smallest size class": "C07", "already met at the start of the step": "C19", "gets the disordered matrix phase only once": "C10", "in the middle of the lookup table continues from the class below": "C03", "also resets what is defined per size class": "C03", "profile on which nothing changes": "C04", "fewer classes than minBins/2": "C08", "survive a change of the size classes": "C03", "newly added size classes continues": "C03", "stay aligned with the steps while a phase is reset": "C03", "before any interfacial composition exists": "C03", "without recording can be loaded": "C20", "post-processing works on copies": "C17",
        "site-type limit is rejected": "C14", "reaches the precipitates also after": "C14",
        "discards the composition sets cached by the previous method": "C09", "only reused for the same local sampling conditions": "C09",
        "does not fall back to an earlier query": "C09",
        "carry the J factor like their edge and screw forms": "C18", "finds the file saveRecordedPSD wrote": "C20",
-       "before the matrix stiffness keeps the chosen precipitate shape": "C16", "also applies to cooling": "C13", "a loaded diffusion model continues from the loaded state": "C20", "keeps the size class settings of the model it is loaded into": "C20", "finds the file StrengthModel.save wrote": "C20",
-       "is the limit of its formula": "C15", "does not rename the first entry of the caller's list of phases": "C11", "trained with integer temperatures can be written to JSON": "C20"}
+       "before the matrix stiffness keeps the chosen precipitate shape": "C16", "is rotated from the value the user supplied": "C16", "also applies to cooling": "C13", "a loaded diffusion model continues from the loaded state": "C20", "keeps the size class settings of the model it is loaded into": "C20", "finds the file StrengthModel.save wrote": "C20",
+       "is the limit of its formula": "C15", "does not rename the first entry of the caller's list of phases": "C11", "trained with integer temperatures can be written to JSON": "C20", "works with its default diffusivity_correction": "C10"}
 log = subprocess.run("git -C /repo log --format='%h %s' --grep='^fix:'", shell=True, capture_output=True, text=True).stdout.strip().splitlines()
 todo = []
 for l in log:
